@@ -193,7 +193,7 @@ var errScripted = errors.New("scripted mechanism error")
 
 // trace of one negotiation
 type trace struct {
-	used      string   // name of the mechanism whose Start/Next ran first
+	used      string // name of the mechanism whose Start/Next ran first
 	usedSet   bool
 	results   []step   // observed result of every Step (in order)
 	calls     []string // challenges handed to Next (payload syntax)
@@ -850,10 +850,18 @@ func runServer(r *common.Run, c srvCase, class string) error {
 
 	streams, perr := nc.ParseWritten(conn.Written())
 	var sent []string
+	var advertised []string
 	if len(streams) > 0 {
 		for _, e := range streams[0].Elems {
 			switch {
 			case e.Name.Local == "features":
+				if ms, ok := e.Child("mechanisms"); ok {
+					for _, k := range ms.Kids {
+						if k.Name.Local == "mechanism" {
+							advertised = append(advertised, k.Text)
+						}
+					}
+				}
 			case e.Name.Space == nsSASL && e.Name.Local == "challenge":
 				sent = append(sent, "chal/"+canonPayload(e.Text))
 			case e.Name.Space == nsSASL && e.Name.Local == "success":
@@ -871,7 +879,7 @@ func runServer(r *common.Run, c srvCase, class string) error {
 	}
 	authn := res.called > 0 && res.mask&xmpp.Authn != 0
 	errc := errClass(res, &t)
-	obs := fmt.Sprintf("%s %s %s %s", common.B(authn), errc, common.Join(sent, ","), common.Join(t.perms, ","))
+	obs := fmt.Sprintf("%s %s %s %s adv:%s", common.B(authn), errc, common.Join(sent, ","), common.Join(t.perms, ","), encNames(advertised))
 	if res.panicV != "" {
 		obs = "PANIC"
 	}
@@ -889,6 +897,31 @@ func runServer(r *common.Run, c srvCase, class string) error {
 		r.Fail("server-output-wellformed", "xml", lines, perr.Error())
 	}
 	consumed := len(delivered)
+	for _, a := range advertised {
+		if strings.HasSuffix(a, "-PLUS") {
+			r.Fail("server-advertises-supported", "plus-advertised", lines, "the receiving side advertises "+a+", which its SASL library cannot serve")
+		}
+		ok := false
+		for _, m := range c.mechs {
+			if m == a {
+				ok = true
+			}
+		}
+		if !ok {
+			r.Fail("server-advertises-supported", "unconfigured-advertised", lines, "advertised mechanism "+a+" is not configured")
+		}
+	}
+	if t.usedSet {
+		ok := false
+		for _, a := range advertised {
+			if a == t.used {
+				ok = true
+			}
+		}
+		if !ok {
+			r.Fail("server-mechanism-offered", "stepped-not-advertised", lines, fmt.Sprintf("mechanism %q is stepped but was not advertised (%q)", t.used, advertised))
+		}
+	}
 	sessAuthn := res.state&xmpp.Authn != 0
 	if authn != sessAuthn {
 		r.Fail("server-state-follows-mask", fmt.Sprintf("mask=%v;state=%v", authn, sessAuthn), lines, "the session's Authn bit differs from the mask returned by Negotiate")
@@ -978,14 +1011,14 @@ func cliStepScripts() [][]step {
 	d := func(b ...byte) step { return step{kind: "d", resp: b} }
 	e := step{kind: "e"}
 	return [][]step{
-		{d(0xA1)},                 // one step (PLAIN shaped)
-		{d()},                     // one step, empty initial response
-		{m(0xA1), d()},            // two steps
-		{m(0xA1), m(0xA2), d()},   // three steps (SCRAM shaped)
-		{m(), m(0xA2), d(0xA3)},   // three steps, final response non-empty
-		{m(0xA1), e},              // error on the first challenge
-		{m(0xA1), m(0xA2), e},     // error on the second challenge
-		{e},                       // error at Start
+		{d(0xA1)},               // one step (PLAIN shaped)
+		{d()},                   // one step, empty initial response
+		{m(0xA1), d()},          // two steps
+		{m(0xA1), m(0xA2), d()}, // three steps (SCRAM shaped)
+		{m(), m(0xA2), d(0xA3)}, // three steps, final response non-empty
+		{m(0xA1), e},            // error on the first challenge
+		{m(0xA1), m(0xA2), e},   // error on the second challenge
+		{e},                     // error at Start
 		{m(0xA1), m(0xA2), m(0xA3), m(0xA4), d()}, // five steps
 	}
 }
@@ -1129,6 +1162,12 @@ func Run(r *common.Run) error {
 		if err := replayLine(r, "C03 "+l); err != nil {
 			return err
 		}
+	}
+
+	// ---- several sessions on one feature value ----
+	genConcurrent(r, rnd)
+	if r.Race() {
+		return nil
 	}
 
 	// ---- client role, scripted mechanisms: exhaustive over short peer scripts ----
@@ -1382,6 +1421,8 @@ func replayLine(r *common.Run, l string) error {
 		return out, nil
 	}
 	switch {
+	case f[0] == "concs" || f[0] == "concc":
+		return replayConc(r, f)
 	case f[0] == "clie" && len(f) == 7:
 		st, err := steps(f[5])
 		if err != nil {
